@@ -31,6 +31,7 @@ var probes = map[string]func() string{
 	"netacc-ctx-during-accept":   func() string { return probeNetAccepter("during") },
 	"wire-concurrent-pushes":     probeConcurrentPushes,
 	"bridge-dead-context-post":   probeBridgeDeadContext,
+	"shared-options-own-limits":  probeSharedOptions,
 }
 
 func TestProbes(t *testing.T) {
@@ -312,6 +313,64 @@ func probeBridgeDeadContext() string {
 				}
 			}
 		}
+	}
+	return "ok"
+}
+
+// probeSharedOptions: the Concurrency limit is per SERVER. Two servers built from the same *ServerOptions value
+// (as server.Loop builds one per connection) do not share handler slots: while one is saturated, the other - with
+// nothing executing - starts a request it is given; and neither exceeds its own limit.
+func probeSharedOptions() string {
+	opts := &jrpc2.ServerOptions{Concurrency: 1}
+	gate := make(chan struct{})
+	var running, peak int32
+	var mu sync.Mutex
+	mk := func() (*jrpc2.Server, *jrpc2.Client) {
+		cch, sch := channel.Direct()
+		srv := jrpc2.NewServer(handler.Map{
+			"block": func(ctx context.Context, _ *jrpc2.Request) (any, error) {
+				mu.Lock()
+				running++
+				if running > peak {
+					peak = running
+				}
+				mu.Unlock()
+				<-gate
+				mu.Lock()
+				running--
+				mu.Unlock()
+				return "done", nil
+			},
+			"ping": func(context.Context, *jrpc2.Request) (any, error) { return "pong", nil },
+		}, opts).Start(sch)
+		return srv, jrpc2.NewClient(cch, nil)
+	}
+	srvA, cliA := mk()
+	srvB, cliB := mk()
+	defer func() { cliA.Close(); cliB.Close(); srvA.Wait(); srvB.Wait() }()
+	blocked := make(chan error, 1)
+	go func() { _, err := cliA.Call(context.Background(), "block", nil); blocked <- err }()
+	deadline := time.Now().Add(10 * time.Second)
+	for {
+		mu.Lock()
+		n := running
+		mu.Unlock()
+		if n == 1 {
+			break
+		}
+		if time.Now().After(deadline) {
+			close(gate)
+			return "FAIL\tthe blocking call on server A never started"
+		}
+		time.Sleep(time.Millisecond)
+	}
+	ctx, cancel := context.WithTimeout(context.Background(), 5*time.Second)
+	defer cancel()
+	_, err := cliB.Call(ctx, "ping", nil)
+	close(gate)
+	<-blocked
+	if err != nil {
+		return fmt.Sprintf("FAIL\tserver B (idle, Concurrency 1, built from the same *ServerOptions as the saturated server A) did not run its request: %v", err)
 	}
 	return "ok"
 }
